@@ -31,7 +31,9 @@ func (l *lockTracker) observe(ctx *h.ScanCtx) {
 		for i, e := range writes {
 			acc := false
 			switch {
-			case e.Op == sim.OpSetDesired && e.Err == "" && e.Val > e.RealDesired:
+			case e.Op == sim.OpSetDesired && e.Err == "":
+				// escalator takes its cool-down lock after every successful scale-up call, also when (working
+				// on a stale description of the cloud group) the call did not actually raise the capacity
 				acc = true
 			case e.Op == sim.OpAttach && e.Err == "":
 				acc = true
